@@ -178,7 +178,8 @@ theorem C13_heard_suppressed (cache' : List Rec) (h : History) (now now' : Int) 
   rw [C13_suppress_iff]
   exact ⟨rfl, _, (C13_history_upd lower [] h now ty).2.2.2.1 _ known rfl, hgap, hcov⟩
 
-/-- **The clean-up tick is invisible.**  `QuestionHistory.async_expire` (run with the 10 s cache clean-up) deletes entries older
+/-- **The clean-up tick is invisible.**  `AsyncEngine._async_cache_cleanup` calls `question_history.async_expire(now)`
+(`History.cleanupTick`; the call and its argument are a translated leaf), which deletes entries older
 than 999 ms; for a history that is a dict (`History.Keyed`: one entry per question — kept by `add` and `expire`, true of the empty
 history) expiring at any `t ≤ now` changes no later decision of `askType`: "asked at T, clean-up at T+500, asked at T+900 ⇒
 suppressed" composes from `C13_repeat_suppressed` and this. -/
@@ -186,8 +187,10 @@ theorem C13_cleanup_invisible (cache : List Rec) (h : History) (t now : Int) (qu
     (hk : History.Keyed lower h) (ht : t ≤ now) :
     (askType lower cache (h.expire t) now qu ty).1 = (askType lower cache h now qu ty).1 ∧
     History.Keyed lower (h.expire t) ∧
-    (∀ q now' known, History.Keyed lower (h.add lower q now' known)) ∧ History.Keyed lower [] := by
-  refine ⟨?_, keyed_expire lower hk t, fun q now' known => keyed_add lower hk q now' known, by simp [History.Keyed]⟩
+    (∀ q now' known, History.Keyed lower (h.add lower q now' known)) ∧ History.Keyed lower [] ∧
+    h.cleanupTick t = h.expire t := by
+  refine ⟨?_, keyed_expire lower hk t, fun q now' known => keyed_add lower hk q now' known, by simp [History.Keyed],
+    by unfold History.cleanupTick; rw [cleanup_expire_time_eq]⟩
   rw [askType_eq, askType_eq, suppresses_expire lower hk t now ht]
   split <;> rfl
 
